@@ -1,7 +1,7 @@
 #!/bin/bash
 # usage: tools_seed_batch.sh "<prop>:<X>:<checks...>" ...   (reads /tmp/seed/<prop>/SEED/<X>/patch.diff), 4 at a time
-mkdir -p /tmp/seedrun/logs
-run() { IFS=: read P X CH <<<"$1"; /verif/tools_try_seed.sh ${SEEDROOT:-/tmp/seed}/$P/SEED/$X/patch.diff $P$X $CH > /tmp/seedrun/logs/$P$X.log 2>&1; }
+mkdir -p ${SEEDRUN:-/tmp/seedrun}/logs
+run() { IFS=: read P X CH <<<"$1"; /verif/tools_try_seed.sh ${SEEDROOT:-/tmp/seed}/$P/SEED/$X/patch.diff $P$X $CH > ${SEEDRUN:-/tmp/seedrun}/logs/$P$X.log 2>&1; }
 export -f run
 printf '%s\n' "$@" | xargs -P 4 -I{} bash -c 'run "{}"'
-cat /tmp/seedrun/logs/*.log | grep RESULT
+cat ${SEEDRUN:-/tmp/seedrun}/logs/*.log | grep RESULT
